@@ -22,7 +22,7 @@ LexLines == { L("k", K_a, 0, 0, 0), L("k", K_b, 0, 0, 0), L("k", K_b, 2, 1, 0), 
               L("k", K_B, 0, 0, 0), L("k", K_e, 0, 0, 0),
               L("k", K_2, 0, 0, 0), L("k", K_10, 0, 0, 0),
               L("id", K_a, 0, 0, 0), L("id", K_b, 1, 0, 1), L("kv", K_a, 0, 0, 0), L("kv", K_b, 0, 0, 2),
-              L("blank", <<>>, 0, 0, 0), L("ws", <<>>, 2, 0, 0) }
+              L("blank", <<>>, 0, 0, 0), L("ws", <<>>, 2, 0, 0), L("uws", <<>>, 1, 0, 0) }
 NumLines == { L("k", K_2, 0, 0, 0), L("k", K_10, 0, 0, 0), L("k", K_10, 2, 1, 0), L("k", K_95, 0, 0, 0),
               L("k", K_m3, 0, 0, 0), L("k", K_m5, 0, 0, 0),
               L("id", K_2, 0, 0, 0), L("id", K_10, 0, 0, 1), L("id", K_m3, 1, 0, 0),
@@ -41,5 +41,5 @@ C(dir, sp, pat, fmt) == [kind |-> "sorted", dir |-> dir, sp |-> sp, pat |-> pat,
 \* sp = spelling of the direction attribute: "" | asc | ASC | desc | Desc
 MCConfigs == { C(d[1], d[2], p, IF UseNum THEN "num" ELSE "lex") :
                  d \in {<<"asc", "">>, <<"asc", "asc">>, <<"asc", "ASC">>, <<"desc", "desc">>, <<"desc", "Desc">>},
-                 p \in (IF Star THEN {"gstar"} ELSE {"none", "group", "plain"}) }
+                 p \in (IF Star THEN {"gstar"} ELSE {"none", "group", "plain", "galt", "ganch"}) }
 =============================================================================
